@@ -5,3 +5,4 @@ from . import results  # noqa: F401
 from . import package  # noqa: F401
 from . import typemap  # noqa: F401
 from . import naming  # noqa: F401
+from . import schemagen  # noqa: F401
